@@ -100,6 +100,7 @@ CoerceBytes(v) ==              \* CoerceString; OOM is represented by <<-1>>
     [] v.t = "str"  -> v.s
     [] v.t = "bool" -> IF v.b THEN <<49>> ELSE <<>>
     [] v.t = "null" -> <<>>
+    [] v.t = "gostr" -> v.s     \* a host value implementing fmt.Stringer: its String()
     [] OTHER        -> <<-1>>   \* arrays/hashes print "" in stick, "Array" in Twig; macro sets: undefined
 BytesOOM(b) == b = <<-1>>
 
